@@ -4,12 +4,12 @@ from __future__ import annotations
 import secrets
 from enum import Enum
 from ipaddress import IPv4Address, IPv4Network
-from typing import Any, ClassVar, Dict, List, Literal, Optional, Tuple, Union
+from typing import Any, Callable, ClassVar, Dict, List, Literal, Optional, Tuple, Union
 
 from prettytable import MARKDOWN, PrettyTable
 from pydantic import Field, validate_call
 
-from primaite.interface.request import RequestResponse
+from primaite.interface.request import RequestFormat, RequestResponse
 from primaite.simulator.core import RequestManager, RequestType, SimComponent
 from primaite.simulator.network.hardware.base import IPWiredNetworkInterface, UserManager, UserSessionManager
 from primaite.simulator.network.hardware.node_operating_state import NodeOperatingState
@@ -317,11 +317,22 @@ class AccessControlList(SimComponent):
         # 4: destination ip address (str castable to IPV4Address (e.g. '10.10.1.2'))
         # 5: destination port (str name of a Port (e.g. "HTTP"))
         # 6: position (int)
+        def _refuse_out_of_bounds(func: Callable[[RequestFormat], bool]) -> Callable[[RequestFormat, Dict], RequestResponse]:
+            """Answer 'failure' instead of raising when the rule position is out of bounds."""
+
+            def _handler(request: RequestFormat, context: Dict) -> RequestResponse:
+                try:
+                    return RequestResponse.from_bool(func(request))
+                except ValueError as e:
+                    return RequestResponse(status="failure", data={"reason": str(e)})
+
+            return _handler
+
         rm.add_request(
             "add_rule",
             RequestType(
-                func=lambda request, context: RequestResponse.from_bool(
-                    self.add_rule(
+                func=_refuse_out_of_bounds(
+                    lambda request: self.add_rule(
                         action=ACLAction[request[0]],
                         protocol=None if request[1] == "ALL" else request[1],
                         src_ip_address=None if request[2] == "ALL" else IPv4Address(request[2]),
@@ -338,7 +349,7 @@ class AccessControlList(SimComponent):
 
         rm.add_request(
             "remove_rule",
-            RequestType(func=lambda request, context: RequestResponse.from_bool(self.remove_rule(int(request[0])))),
+            RequestType(func=_refuse_out_of_bounds(lambda request: self.remove_rule(int(request[0])))),
         )
         return rm
 
